@@ -501,5 +501,79 @@ func init() {
 		for i := 0; i < n; i++ {
 			c04Case(o, root, rec, rng.Fork())
 		}
+		c04Structs(o)
+	}
+}
+
+// ---- input objects with a registered Go struct: undeclared members --------------------------------------
+//
+// Fixed table, every run.  `Input.CoerceIn` takes a different path when a Go struct is registered for the input
+// type (the value is built by reflection); an undeclared member must be refused there as it is for the map form,
+// wherever the value comes from: a literal, a variable, a variable inside a literal, a member of a list.
+
+type c04S struct {
+	X int32
+	Y string
+}
+
+type c04SNode struct {
+	called bool
+	got    []interface{}
+}
+
+func (n *c04SNode) Resolve(f *ggql.Field, args map[string]interface{}) (interface{}, error) {
+	switch f.Name {
+	case "query":
+		return n, nil
+	case "s", "l":
+		n.called = true
+		for _, v := range args {
+			n.got = append(n.got, v)
+		}
+		return 1, nil
+	}
+	return nil, nil
+}
+
+var c04STable = []struct {
+	doc     string
+	vars    map[string]interface{}
+	unknown string // the undeclared member the request carries, "" when there is none
+}{
+	{`{ s(in: {x: 1}) }`, nil, ""},
+	{`{ s(in: {}) }`, nil, ""},
+	{`{ s(in: {x: 1, y: "a"}) }`, nil, ""},
+	{`{ s(in: {x: 1, z: 3}) }`, nil, "z"},
+	{`{ s(in: {zz: null}) }`, nil, "zz"},
+	{`query($v: SIn){ s(in: $v) }`, map[string]interface{}{"v": map[string]interface{}{"x": 1, "z": 3}}, "z"},
+	{`query($v: SIn){ s(in: $v) }`, map[string]interface{}{"v": map[string]interface{}{"x": 1}}, ""},
+	{`query($z: Int){ s(in: {x: 1, z: $z}) }`, map[string]interface{}{"z": 3}, "z"},
+	{`{ l(ins: [{x: 1}, {z: 2}]) }`, nil, "z"},
+	{`{ l(ins: [{x: 1}, {y: "b"}]) }`, nil, ""},
+}
+
+func c04Structs(o *Out) {
+	for _, registered := range []bool{true, false} {
+		for _, e := range c04STable {
+			node := &c04SNode{}
+			root := ggql.NewRoot(node)
+			if err := root.ParseString("input SIn { x: Int y: String }\ntype Query { s(in: SIn): Int l(ins: [SIn]): Int }"); err != nil {
+				panic(err)
+			}
+			if registered {
+				if err := root.RegisterType(&c04S{}, "SIn"); err != nil {
+					panic(err)
+				}
+			}
+			res := safeResolve(root, e.doc, "", e.vars)
+			named := e.unknown != "" && strings.Contains(canon(res["errors"]), e.unknown+" is not a field")
+			o.Count("input-with-registered-struct cases")
+			o.Emit(Case{
+				Term: N("c04s", S(e.doc), B(registered), B(e.unknown != "")),
+				Obs:  N("obs", B(node.called), B(named)),
+				Meta: map[string]interface{}{"doc": e.doc, "registered_go_struct": registered, "response": fmt.Sprintf("%v", res), "received": fmt.Sprintf("%#v", node.got)},
+				Nontrivial: true,
+			})
+		}
 	}
 }
